@@ -4,7 +4,7 @@ P="$1"; PATCH="$2"; shift 2
 D=$(mktemp -d /tmp/mutrepo.XXXXXX)
 cp -r /repo/src /repo/tests /repo/conftest.py /repo/pyproject.toml "$D"/ 2>/dev/null
 ( cd "$D" && patch -p1 -s < "$PATCH" ) || { echo "PATCH DID NOT APPLY"; rm -rf "$D"; exit 3; }
-ATTRS_REPO="$D" /verif/check "$P" "$@"; rc=$?
+VERIF_EVIDENCE_DIR="$D/evidence" ATTRS_REPO="$D" /verif/check "$P" "$@"; rc=$?
 rm -rf "$D"
 echo "seedtest exit=$rc"
 exit $rc
